@@ -241,7 +241,74 @@ def run(tier="quick", seed=0):
                     viol.append({"id": "tree_%d" % ev, "clause": "region_selection", "why": "one RegionCoreTree read after every batch of add_core calls: " + why,
                                  "inputs": {"batches_of_cores_added": history}})
             distinct += 1
+    # (g) unions of whole blocks of different sizes and a few single chips, with core sets drawn from a small pool so that EQUAL
+    #     core masks meet at different levels of the hierarchy (a full 4x4 block next to single chips of the 4x4 block at its
+    #     parent's origin, a full 16x16 block beside full 4x4 blocks ...); the cores of a chip also as lists naming a core twice
+    for i in range(260 if tier == "quick" else 4000):
+        ox, oy = rng.choice(((0, 0), (64, 128), (192, 192), (128, 0)))
+        pool = rng.choice(([{1}], [{17}], [{1}, {1, 5}], [{3, 7}], [{0}, {17}], [{2}, {2}, {9}]))
+        t = {}
+        probe = set()
+        for _ in range(rng.randint(2, 4)):
+            cores = set(rng.choice(pool))
+            kind = rng.random()
+            if kind < .4:           # a whole 4x4 block
+                x0, y0 = ox + 4 * rng.choice((0, 1, 3, 4, 5, 15)), oy + 4 * rng.choice((0, 1, 3, 4, 5, 15))
+                cells = [(x0 + dx, y0 + dy) for dx in range(4) for dy in range(4)]
+            elif kind < .55:        # a whole 16x16 block
+                x0, y0 = ox + 16 * rng.choice((0, 1, 3)), oy + 16 * rng.choice((0, 1, 3))
+                cells = [(x0 + dx, y0 + dy) for dx in range(16) for dy in range(16)]
+            else:                   # one to three chips of one 4x4 block (often the block at the origin of its 16x16 / 64x64 parent)
+                x0, y0 = ox + 4 * rng.choice((0, 0, 1, 4, 8)), oy + 4 * rng.choice((0, 0, 1, 4, 8))
+                cells = rng.sample([(x0 + dx, y0 + dy) for dx in range(4) for dy in range(4)], rng.randint(1, 3))
+                probe.update((x0 + dx, y0 + dy) for dx in range(4) for dy in range(4))
+            for c in cells:
+                t.setdefault(c, set()).update(cores)
+            probe.update(around([cells[0], cells[-1]]))
+        check(t, "blocks", probe)
+    # (h) a core named twice: lists of cores with repeats through compress_flood_fill_regions, and add_core repeated on one tree
+    #     for a core inside a block that is already completely selected (4x4, 16x16 and - thorough - 64x64 blocks)
+    for size in (4, 16) if tier == "quick" else (4, 16, 64):
+        for (bx, by) in ((0, 0), (192, 64)):
+            for core in (3, 17):
+                block = [(bx + dx, by + dy) for dx in range(size) for dy in range(size)]
+                again = [block[0], block[len(block) // 2 + 1], block[-1]]
+                ev += 1
+                distinct += 1
+                tree = RegionCoreTree()
+                for (x, y) in block:
+                    tree.add_core(x, y, core)
+                for (x, y) in again:
+                    tree.add_core(x, y, core)
+                got = decode(list(tree.get_regions_and_coremasks()), set(block) | around([block[0], block[-1]]))
+                want = {(x, y, core) for (x, y) in block}
+                why = None
+                if set(got) != want:
+                    why = "missing %s extra %s" % (sorted(want - set(got))[:3], sorted(set(got) - want)[:3])
+                elif any(v != 1 for v in got.values()):
+                    why = "selected twice: %s" % [k for k, v in got.items() if v != 1][:3]
+                if why and len(viol) < 6:
+                    viol.append({"id": "readd_%d_%d_%d_%d" % (size, bx, by, core), "clause": "region_selection",
+                                 "why": "core %d added for every chip of the %dx%d block at (%d,%d) and then added again for %r: %s" % (core, size, size, bx, by, again, why),
+                                 "inputs": {"block": [bx, by, size], "core": core, "added_again": again}})
+                # the same through the public function: the chip's cores as a list naming the core twice
+                ev += 1
+                req = {c: ([core, core] if c in again else [core]) for c in block}
+                try:
+                    pairs = [(int(r), int(m)) for r, m in compress_flood_fill_regions(req)]
+                    got = decode(pairs, set(block) | around([block[0], block[-1]]))
+                    why = None
+                    if set(got) != want:
+                        why = "missing %s extra %s" % (sorted(want - set(got))[:3], sorted(set(got) - want)[:3])
+                    elif any(v != 1 for v in got.values()):
+                        why = "selected twice: %s" % [k for k, v in got.items() if v != 1][:3]
+                except Exception as e:      # noqa
+                    why = "raised %s: %s" % (type(e).__name__, e)
+                if why and len(viol) < 6:
+                    viol.append({"id": "twice_%d_%d_%d_%d" % (size, bx, by, core), "clause": "region_selection",
+                                 "why": "%dx%d block at (%d,%d), core %d, three chips list the core twice: %s" % (size, size, bx, by, core, why),
+                                 "inputs": {"block": [bx, by, size], "core": core, "chips_naming_the_core_twice": again}})
     return {"name": "c12_regions", "evaluations": ev, "distinct_nontrivial": distinct,
-            "rule": "compress_flood_fill_regions (the request in rotating forms: coordinates as python / numpy 32- and 64-bit integers, cores as sets / lists / one-shot iterators / generators) decoded by an independent reading of the region word: all subsets of 2x2 chips x cores {1,17} at six positions (incl. level boundaries); full, one-short, full+sparse-second-core and full+outside blocks of 1, 4, 16, 64 chips square for three core pairs at two positions; seeded mixes of neighbouring chips with different core sets; checks nothing missing, nothing extra (neighbouring chips probed), nothing twice, strictly increasing (region<<32|mask), well formed; get_region_for_chip for every chip x level against the documented word; the core-select packets the real flood_fill_aplx sends (recording transport) for two/three-chip targets with cores 16/17 and seeded mixes (all fills on ONE controller): the pairs produced, in increasing order; one RegionCoreTree used over time (2-4 batches of add_core, the pairs read twice after every batch): exactly the cores added so far",
+            "rule": "compress_flood_fill_regions (the request in rotating forms: coordinates as python / numpy 32- and 64-bit integers, cores as sets / lists / one-shot iterators / generators) decoded by an independent reading of the region word: all subsets of 2x2 chips x cores {1,17} at six positions (incl. level boundaries); full, one-short, full+sparse-second-core and full+outside blocks of 1, 4, 16, 64 chips square for three core pairs at two positions; seeded mixes of neighbouring chips with different core sets; checks nothing missing, nothing extra (neighbouring chips probed), nothing twice, strictly increasing (region<<32|mask), well formed; get_region_for_chip for every chip x level against the documented word; the core-select packets the real flood_fill_aplx sends (recording transport) for two/three-chip targets with cores 16/17 and seeded mixes (all fills on ONE controller): the pairs produced, in increasing order; one RegionCoreTree used over time (2-4 batches of add_core, the pairs read twice after every batch): exactly the cores added so far; unions of 2-4 whole 4x4 / 16x16 blocks and single chips (often of the 4x4 block at the origin of the parent block) whose core sets come from a small pool, so that equal core masks meet at different levels; a core named twice (lists with repeats; add_core repeated inside a completely selected 4x4 / 16x16 (thorough 64x64) block)",
             "bound": "structured families listed in the rule; %d seeded mixes" % (300 if tier == "quick" else 3000), "exhaustive": False,
             "label": "bounded", "samples": samples, "violations": viol, "seconds": round(time.time() - t0, 2)}
